@@ -18,6 +18,7 @@ The glob matcher (`path.Match`) lives in `Glob.lean`.
 -/
 import CaddyModel.Util.Hex
 import CaddyModel.C07.Glob
+import CaddyModel.Gen.Glue
 
 namespace CaddyModel.C07
 
@@ -194,6 +195,7 @@ structure Cfg where
   canonical : Bool
   pre : List (Bytes × Bytes) := []   -- precompressed: Accept-Encoding name ↦ file suffix (a Go map: keys unique)
   accepted : List Bytes := []        -- what `encode.AcceptedEncodings(r, order)` returned, in order
+  etagExt : List Bytes := []         -- `etag_file_extensions`
   query : Bytes := []                -- request data: `r.URL.RawQuery` (kept here so that `serve` keeps its signature)
 deriving Repr
 
@@ -209,11 +211,17 @@ inductive Outcome where
   | listing (path : Bytes) (names : List Bytes)  -- directory listing of `path`
   | sidecar (path : Bytes) (id : Nat) (enc : Bytes)  -- bytes of precompressed file `id`, opened as `path`,
                                                      -- sent with `Content-Encoding: enc`
+  | withEtag (o : Outcome) (name : Bytes) (id : Nat)   -- `o` (a file or a sidecar), with the `Etag` header taken
+                                                     -- from the content of file `id`, read as `name`
 deriving DecidableEq, Repr
 
 def Cfg.rootE (c : Cfg) : Bytes := rootOrDot c.root
 def Cfg.hideT (c : Cfg) : List Bytes := transformHide c.cwd c.hide
 def Cfg.hidden (c : Cfg) (p : Bytes) : Bool := fileHidden c.cwd p c.hideT
+
+/-- `defaultIndexNames` (staticfiles.go), what `Provision` puts in place of an omitted `index_names`;
+    read off the source on every run (`Gen.defaultIndexNames`) -/
+def defaultIndexNames : List Bytes := CaddyModel.Gen.defaultIndexNames.map str
 
 def notFoundOut (c : Cfg) : Outcome := if c.passThru then .passThru else .notFound
 
@@ -388,11 +396,33 @@ def findSidecar (fs : FS) (c : Cfg) (filename : Bytes) : List Bytes → Traced (
         | .file id => (some (filename ++ suf, id, ae), [filename ++ suf, filename ++ suf])
         | _ => withTrace (filename ++ suf) (findSidecar fs c filename rest)
 
-/-- sidecar or the file itself -/
+/-- `getEtagFromFile(fileSystem, name)`: the first of `name + ext` that can be read; `none` = a
+    read error other than "does not exist" (ServeHTTP returns it: 500); `some none` = no etag file.
+    Note that the etag file's own name is not tested against the hide list. -/
+def findEtag (fs : FS) (name : Bytes) : List Bytes → Traced (Option (Option (Bytes × Nat)))
+  | [] => (some none, [])
+  | ext :: rest =>
+    match fs (name ++ ext) with
+    | .missing => withTrace (name ++ ext) (findEtag fs name rest)
+    | .file id => (some (some (name ++ ext, id)), [name ++ ext])
+    | _ => (none, [name ++ ext])
+
+/-- "try to get the etag from pre computed files if an etag suffix list was provided" -/
+def withEtagOf (fs : FS) (c : Cfg) (name : Bytes) (o : Outcome) : Traced Outcome :=
+  match findEtag fs name c.etagExt with
+  | (none, t) => (.serverError, t)
+  | (some none, t) => (o, t)
+  | (some (some (n, id)), t) => (.withEtag o n id, t)
+
+/-- sidecar or the file itself, then the etag file of whichever was opened -/
 def serveContent (fs : FS) (c : Cfg) (filename : Bytes) : Traced Outcome :=
   match findSidecar fs c filename c.accepted with
-  | (some (p, id, ae), t) => (.sidecar p id ae, t)
-  | (none, t) => appendTrace t (openAndServe fs c filename)
+  | (some (p, id, ae), t) => appendTrace t (withEtagOf fs c p (.sidecar p id ae))
+  | (none, t) =>
+    appendTrace t <|
+      match openAndServe fs c filename with
+      | (.file f id, t2) => appendTrace t2 (withEtagOf fs c f (.file f id))
+      | r => r
 
 /-- hidden check, canonical-URI redirect, open (everything after the directory branch) -/
 def serveFile (fs : FS) (c : Cfg) (filename : Bytes) (implicitIndex : Bool) (path orig : Bytes) : Traced Outcome :=
